@@ -87,6 +87,41 @@ func switchCases(fd *ast.FuncDecl, tag string, keep ...string) []string {
 	return out
 }
 
+// callArgsText: the idx-th argument, as source text, of every call whose callee name ends in suffix
+func callArgsText(fd *ast.FuncDecl, suffix string, idx int) []string {
+	var out []string
+	if fd == nil || fd.Body == nil {
+		return out
+	}
+	ast.Inspect(fd.Body, func(n ast.Node) bool {
+		c, ok := n.(*ast.CallExpr)
+		if ok && strings.HasSuffix(calleeName(c.Fun), suffix) && idx < len(c.Args) {
+			arg := nodeText(c.Args[idx])
+			// a local name assigned exactly once stands for its defining expression
+			if id, isIdent := c.Args[idx].(*ast.Ident); isIdent {
+				if defs := assignmentsRHS(fd, id.Name); len(defs) == 1 {
+					arg = defs[0]
+				}
+			}
+			out = append(out, arg)
+		}
+		return true
+	})
+	return out
+}
+
+// assignmentsRHS: right-hand sides (text) of the single-value assignments to a local name
+func assignmentsRHS(fd *ast.FuncDecl, name string) []string {
+	var out []string
+	ast.Inspect(fd.Body, func(n ast.Node) bool {
+		if as, ok := n.(*ast.AssignStmt); ok && len(as.Lhs) == 1 && len(as.Rhs) == 1 && calleeName(as.Lhs[0]) == name {
+			out = append(out, nodeText(as.Rhs[0]))
+		}
+		return true
+	})
+	return out
+}
+
 func genV1Export() {
 	lf := newLean("V1Export", "Sources: keystore/keystore.go, keystore/filesystem/{filesystem_backup.go, key_export.go, server_keystore.go}, keystore/v2/keystore/{importV1.go, keyRingUtils.go}.")
 	strs := func(name string, xs []string, src string) { lf.def(name, "List String", strList(xs), src) }
@@ -127,6 +162,19 @@ func genV1Export() {
 	im := funcDecl(bk, "KeyBackuper", "Import")
 	strs("importCalls", callSeq(im, "NewSCellKeyEncryptor", "decryptor.Decrypt", "decoder.Decode", "isPrivate", "getContextFromFilename", "currentDecryptor.Encrypt", "filepath.Join", "MkdirAll", "WriteFile", "DescribeKeyFile"), bk+": KeyBackuper.Import – calls in source order")
 	strs("importWriteArgs", callArgs(im, "storage.WriteFile", 1), bk+": KeyBackuper.Import – what is written")
+	// which name each classification step of the import loop is given (the whole record name – a rotated key
+	// "<key file>.old/<timestamp>" is classified by its history directory – or only the base name)
+	var nameArgs []string
+	for _, fn := range []string{"isPrivate", "getContextFromFilename", "DescribeKeyFile"} {
+		as := callArgsText(im, fn, 0)
+		if len(as) != 1 {
+			fail("KeyBackuper.Import: expected exactly one call of %s, found %d", fn, len(as))
+		}
+		for _, a := range as {
+			nameArgs = append(nameArgs, fn+"("+a+")")
+		}
+	}
+	strs("importNameArgs", nameArgs, bk+": KeyBackuper.Import – the argument of each name classification step")
 
 	// ImportKeyFileV1: purpose -> (export function of the old store, import function of the new one)
 	iv := funcDecl("keystore/v2/keystore/importV1.go", "ServerKeyStore", "ImportKeyFileV1")
